@@ -38,4 +38,72 @@ int pthread_mutex_unlock(pthread_mutex_t *m)
 	G_os_locks_held--;
 	return 0;
 }
+
+/* ---- threads, signals, futex, poll: contract stubs with ghost counters ------------------------ */
+#include <signal.h>
+#include <errno.h>
+#include <stdarg.h>
+#include <sys/syscall.h>
+#include <poll.h>
+static unsigned long G_os_thread_created, G_os_thread_joined, G_os_sigmask_calls, G_os_sig_blocked;
+static unsigned long G_os_futex_wake, G_os_futex_wait, G_os_poll_calls, G_os_membarrier;
+static int G_os_futex_ret;		/* harness-chosen result of the next futex call: 0, or -1 with errno */
+static int G_os_futex_errno;
+#ifdef OS_FUTEX_HOOK
+static void os_futex_hook(int *uaddr, int op, int val);
+#else
+#define os_futex_hook(u, o, v) ((void) 0)
+#endif
+#ifdef OS_JOIN_HOOK
+static void os_join_hook(void);
+#else
+#define os_join_hook() ((void) 0)
+#endif
+
+int pthread_create(pthread_t *t, const pthread_attr_t *a, void *(*fn)(void *), void *arg)
+{
+	(void) a; (void) fn; (void) arg;
+	*t = (pthread_t) (++G_os_thread_created);
+	return 0;
+}
+int pthread_join(pthread_t t, void **ret)
+{
+	(void) t;
+	if (ret) *ret = 0;
+	G_os_thread_joined++;
+	os_join_hook();
+	return 0;
+}
+int pthread_sigmask(int how, const sigset_t *set, sigset_t *old)
+{
+	G_os_sigmask_calls++;
+	if (old) *(unsigned long *) old = G_os_sig_blocked;
+	if (set) {
+		if (how == SIG_BLOCK) G_os_sig_blocked |= *(const unsigned long *) set;
+		else if (how == SIG_SETMASK) G_os_sig_blocked = *(const unsigned long *) set;
+		else G_os_sig_blocked &= ~*(const unsigned long *) set;
+	}
+	return 0;
+}
+int sigfillset(sigset_t *s) { *(unsigned long *) s = ~0UL; return 0; }
+int sigemptyset(sigset_t *s) { *(unsigned long *) s = 0; return 0; }
+int poll(struct pollfd *f, nfds_t n, int t) { (void) f; (void) n; (void) t; G_os_poll_calls++; return 0; }
+long syscall(long nr, ...)
+{
+	va_list ap;
+	va_start(ap, nr);
+	if (nr == SYS_futex) {
+		int *uaddr = va_arg(ap, int *);
+		int op = va_arg(ap, int);
+		int val = va_arg(ap, int);
+		va_end(ap);
+		if (op == 1 /* FUTEX_WAKE */) G_os_futex_wake++; else G_os_futex_wait++;
+		os_futex_hook(uaddr, op, val);
+		if (G_os_futex_ret < 0) errno = G_os_futex_errno;
+		return G_os_futex_ret;
+	}
+	va_end(ap);
+	G_os_membarrier++;
+	return 0;
+}
 #endif
